@@ -6,7 +6,8 @@ remove_out_of_bounds_particles, adapt_to_trimming, clean_by_distance_to_points, 
 All numbers are dyadic (multiples of 1/1024, small magnitude), so numpy's float arithmetic is exact
 and every comparison is decided exactly on both sides.
 """
-import os, io, ast, math, contextlib
+import os, io, ast, re, copy, math, contextlib, tempfile
+from collections import Counter
 from fractions import Fraction
 import core
 
@@ -17,14 +18,22 @@ SCALE = 1024
 COLS = ["score", "geom1", "geom2", "subtomo_id", "tomo_id", "object_id", "subtomo_mean", "x", "y", "z",
         "shift_x", "shift_y", "shift_z", "geom3", "geom4", "geom5", "phi", "psi", "theta", "class"]
 I_ID, I_TOMO, I_X, I_SX = 3, 4, 7, 10
-RULE = ("one case = one call of one filter on a particle list of 1..60 rows (thorough: up to 400) over 1..4 tomograms. "
-        "oob: per-tomogram dimensions (different per tomogram, extra/duplicate/missing rows), boundary 'center'/'whole' with box 1..64 "
+RULE = ("one case = one call of one filter on a particle list of 1..60 rows (thorough: up to 400) over 1..4 tomograms; ~15 % of the cases are a "
+        "HISTORY of 2..3 calls in one process that re-use the same caller-owned arguments (the same dims array/table/file, trim-box arrays, points table, "
+        "mask arrays, tomogram list), some legitimately edited in place / rewritten between the calls; every call is judged on its own and the "
+        "caller-owned arguments are compared before/after each call. ~30 % of the calls omit the keywords whose value is the documented default "
+        "(boundary_type='center', inplace=True). subtomo ids: unique, restarting in every tomogram (same id in several tomograms), or repeated at random "
+        "(mask: repeated inside a tomogram only on rows that share their voxel, see ASSUMPTIONS). "
+        "oob: per-tomogram dimensions (different per tomogram, unsorted, extra/duplicate/missing rows) handed over as ndarray / DataFrame / text file / "
+        "flat list / 1-D array, boundary 'center'/'whole' with box 1..64 incl. every residue mod 4 "
         "(plus refused calls: unknown type, box missing/0), every axis of every particle drawn from {deep inside, exactly on the lower face, "
         "just below it (1, 1/2, 1/1024), negative, 0, just below / exactly on / just beyond the upper face, far beyond}, non-zero shifts; "
-        "trim: integer trim boxes, x,y,z on / next to both faces, shifts that must be ignored; "
-        "points: 0..8 reference points in own/foreign tomograms, radii >= 0 incl. 0 and exact ties (3-4-5 triples on a 1/4 grid); "
-        "mask: per-tomogram binary masks of different small shapes (or one shared mask), listed/unlisted/foreign tomograms, positions with "
-        "fractional parts in (-1,0), on 0, on shape-1/4, on shape, beyond; unique subtomo ids. "
+        "trim: integer trim boxes (list or ndarray, int or float dtype), x,y,z on / next to both faces, shifts that must be ignored; "
+        "points: 0..8 reference points in own/foreign tomograms, radii >= 0 incl. 0 and exact ties (3-4-5 triples on integer and 1/4 grids); "
+        "mask: per-tomogram masks of different small shapes (or one shared mask), binary or with values around the binarisation threshold 0.5, "
+        "listed/unlisted/foreign tomograms, positions with fractional parts in (-1,0), on 0, on shape-1/4, on shape, beyond. "
+        "CONVENTION (theorem voxel_truncation_convention): the voxel of a particle is its complete position TRUNCATED toward zero (astype(int)), so "
+        "positions in (-1,0) count as voxel 0 = inside the mask volume. "
         "non-trivial = the expected result both keeps and removes a particle and the case contains a particle on or next to a face "
         "(oob/trim/mask) resp. a tie or a foreign-tomogram point (points); distinct = distinct (op, inputs) content")
 ASSUMPTIONS = [
@@ -32,7 +41,11 @@ ASSUMPTIONS = [
     "scipy.spatial.KDTree.query_ball_point(p, r) = brute-force closed ball {q : |q-p|^2 <= r^2} (probed every run against brute force incl. exact ties)",
     "numpy astype(int) of a float = truncation toward zero (probed)",
     "pandas: boolean-mask selection and iloc keep row order; Series.unique() lists values in order of first appearance; concat keeps order",
-    "well-formedness of the mask filter: subtomo_id is unique within the list (the code removes BY subtomo_id; theorem cleanMask_spec has exactly this hypothesis)",
+    "well-formedness of the mask filter (theorem cleanMask_spec_iff: exactly this is needed, cleanMask_needs_unique_ids_within_tomogram: it cannot be dropped): "
+    "two rows of ONE tomogram that carry the same subtomo_id sit on voxels of the same kind (usually: an id is not repeated inside a tomogram); "
+    "ids may repeat across tomograms",
+    "the dimensions table has the N x 4 form (tomo_id x y z) of the statement's 'dimensions of the particle's own tomogram'; the 1 x 3 single-tomogram form "
+    "accepted by ioutils.dimensions_load makes remove_out_of_bounds_particles raise KeyError('tomo_id') and is outside the quantifier (reported)",
 ]
 TRUSTED = ["harness/props/c09.py Python oracle used only to cross-check the Lean verdict and to classify finding C09-K1"]
 
@@ -40,6 +53,7 @@ TRUSTED = ["harness/props/c09.py Python oracle used only to cross-check the Lean
 # =============================================================================== translator
 REL = "cryocat/cryomotl.py"
 CMP = {ast.Lt: "lt", ast.LtE: "le", ast.Gt: "gt", ast.GtE: "ge", ast.Eq: "eq", ast.NotEq: "ne"}
+VN = r"(v\d+)"
 
 
 def _cmp(node):
@@ -60,229 +74,319 @@ def _same(xs, what):
     return xs[0]
 
 
+def _params(fn):
+    a = fn.args
+    names = [x.arg for x in a.posonlyargs + a.args + a.kwonlyargs]
+    for x in (a.vararg, a.kwarg):
+        if x is not None:
+            names.append(x.arg)
+    return names
+
+
+def _canon(fn):
+    """a copy of the function without its docstring in which every LOCAL variable (any name bound inside the body:
+    assignment, loop, comprehension, with/except target; parameters keep their names - they are API) is renamed to
+    v1, v2, ... in the order of first binding: two sources that differ only in the spelling of locals give the same tree"""
+    fn = copy.deepcopy(fn)
+    if fn.body and isinstance(fn.body[0], ast.Expr) and isinstance(fn.body[0].value, ast.Constant) and isinstance(fn.body[0].value.value, str):
+        fn.body = fn.body[1:] or [ast.Pass()]
+    keep = set(_params(fn))
+    for n in ast.walk(fn):
+        if isinstance(n, (ast.Global, ast.Nonlocal)):
+            keep.update(n.names)
+    binds = sorted((n.lineno, n.col_offset, n.id) for n in ast.walk(fn)
+                   if isinstance(n, ast.Name) and isinstance(n.ctx, ast.Store) and n.id not in keep)
+    order = []
+    for _, _, name in binds:
+        if name not in order:
+            order.append(name)
+    ren = {name: f"v{k + 1}" for k, name in enumerate(order)}
+    for n in ast.walk(fn):
+        if isinstance(n, ast.Name) and n.id in ren:
+            n.id = ren[n.id]
+    return fn
+
+
+def _hole(name, *args):
+    return ast.Call(func=ast.Name(id=name, ctx=ast.Load()), args=list(args), keywords=[])
+
+
+def _hname(name):
+    return ast.Name(id=name, ctx=ast.Load())
+
+
+def _skeleton(fn, repl):
+    """normalised dump (signature with defaults + one entry per source line of ast.unparse) of a canonical function in
+    which the nodes listed in repl {id(node): replacement} are replaced by named holes"""
+    class T(ast.NodeTransformer):
+        def visit(self, node):
+            if id(node) in repl:
+                return repl[id(node)]
+            return self.generic_visit(node)
+    fn2 = T().visit(copy.copy(fn))
+    ast.fix_missing_locations(fn2)
+    out = ["def(" + ast.unparse(fn2.args) + ")"]
+    for st in fn2.body:
+        out += [ln.rstrip() for ln in ast.unparse(st).split("\n")]
+    return out
+
+
+def _defaults(fn):
+    a = fn.args
+    pos = a.posonlyargs + a.args
+    out = []
+    for arg, d in zip(pos[len(pos) - len(a.defaults):], a.defaults):
+        out.append([arg.arg, ast.unparse(d)])
+    for arg, d in zip(a.kwonlyargs, a.kw_defaults):
+        if d is not None:
+            out.append([arg.arg, ast.unparse(d)])
+    return out
+
+
+def _lean_lines(xs):
+    def esc(x):
+        return '"' + x.replace("\\", "\\\\").replace('"', '\\"') + '"'
+    return "[\n  " + ",\n  ".join(esc(x) for x in xs) + "]"
+
+
+def _lean_pairs(xs):
+    return "[" + ", ".join(f"({core.lean_str(a)}, {core.lean_str(b)})" for a, b in xs) + "]"
+
+
+DOC_DEFAULTS = {
+    "oob": [["boundary_type", "'center'"], ["box_size", "None"]],
+    "points": [["feature_id", "'tomo_id'"], ["inplace", "True"], ["output_file", "None"]],
+    "mask": [["inplace", "True"], ["output_file", "None"]],
+    "binarize": [["threshold", "0.5"]],
+    "dimsload": [["tomo_idx", "None"]],
+}
+
+
 def translate(src):
     A = src.anchor
     nrm = core.norm_expr
+    sk = {}      # name -> skeleton lines
+    dflt = {}    # name -> signature defaults
 
-    def oob_fn():
-        return src.find(REL, "Motl.remove_out_of_bounds_particles")
+    def canon(rel, qual):
+        return _canon(src.find(rel, qual))
 
-    def oob_test():
-        for n in ast.walk(oob_fn()):
-            if isinstance(n, ast.If) and isinstance(n.test, ast.BoolOp) and isinstance(n.test.op, ast.And) and "c_max" in ast.unparse(n.test):
-                return n.test
-        raise core.AnchorMissing("remove_out_of_bounds_particles: `if (lower) and (c_max[0] < ...) and ...` not found")
+    # ---------------------------------------------------------------- remove_out_of_bounds_particles
+    oob = {}
 
-    def oob_lower():
-        conj = [v for v in oob_test().values if "c_min" in ast.unparse(v)]
-        if len(conj) == 1:
-            v = conj[0]
-            txt = nrm(v)
-            if isinstance(v, ast.Compare) and isinstance(v.left, ast.Call) and nrm(v.left) == "all(c_min)" and _num(v.comparators[0]) == 0:
-                if _cmp(v) == "ge":
-                    return ".vacuousAll"  # bool >= 0 is constantly true
-                raise core.AnchorMissing("lower test of unknown form: " + txt)
-            if isinstance(v, ast.Call) and isinstance(v.func, ast.Name) and v.func.id == "all" and len(v.args) == 1 \
-                    and isinstance(v.args[0], ast.GeneratorExp) and nrm(v.args[0].generators[0].iter) == "c_min" \
-                    and not v.args[0].generators[0].ifs:
-                c = v.args[0].elt
-                tgt = nrm(v.args[0].generators[0].target)
-                if isinstance(c, ast.Compare) and nrm(c.left) == tgt and _num(c.comparators[0]) == 0:
-                    return f"(.elementwise .{_cmp(c)})"
-            if isinstance(v, ast.Compare) and nrm(v.left) == "min(c_min)" and _num(v.comparators[0]) == 0 and _cmp(v) in ("ge", "gt"):
-                return f"(.elementwise .{_cmp(v)})"
-            raise core.AnchorMissing("lower test of unknown form: " + txt)
-        if len(conj) == 3:  # c_min[0] >= 0 and c_min[1] >= 0 and c_min[2] >= 0
+    def oob_parse():
+        fn = canon(REL, "Motl.remove_out_of_bounds_particles")
+        repl = {}
+        loops = [n for n in ast.walk(fn) if isinstance(n, ast.For)]
+        ifs = [n for lp in loops for n in ast.walk(lp) if isinstance(n, ast.If) and isinstance(n.test, ast.BoolOp)
+               and isinstance(n.test.op, ast.And)]
+        if len(ifs) != 1:
+            raise core.AnchorMissing(f"remove_out_of_bounds_particles: expected one `if a and b and ...` inside the row loop, found {len(ifs)}")
+        test = ifs[0].test
+
+        def is_upper(v):
+            return (isinstance(v, ast.Compare) and len(v.ops) == 1 and isinstance(v.left, ast.Subscript)
+                    and isinstance(v.left.value, ast.Name) and isinstance(v.left.slice, ast.Constant) and isinstance(v.left.slice.value, int)
+                    and isinstance(v.comparators[0], ast.Subscript) and isinstance(v.comparators[0].value, ast.Subscript)
+                    and isinstance(v.comparators[0].value.slice, ast.Constant) and isinstance(v.comparators[0].value.slice.value, str))
+        ups = [v for v in test.values if is_upper(v)]
+        lows = [v for v in test.values if not is_upper(v)]
+        if len(ups) != 3:
+            raise core.AnchorMissing(f"expected three upper-face conjuncts `c_max[i] <op> tomo_dim[axis][0]`, found {len(ups)}: {nrm(test)}")
+        for i, (v, ax) in enumerate(zip(ups, "xyz")):
+            if v.left.slice.value != i or v.comparators[0].value.slice.value != ax or nrm(v.comparators[0].slice) != "0" \
+                    or v.left.value.id != ups[0].left.value.id or nrm(v.comparators[0].value.value) != nrm(ups[0].comparators[0].value.value):
+                raise core.AnchorMissing(f"upper conjunct {i} is `{nrm(v)}`, expected <c_max>[{i}] <op> <tomo_dim>['{ax}'][0]")
+        oob["upper"] = _same([_cmp(v) for v in ups], "upper test")
+        # ---- lower-face conjunct(s)
+        lower, lname = None, None
+        if len(lows) == 1:
+            v = lows[0]
+            if isinstance(v, ast.Compare) and isinstance(v.left, ast.Call) and nrm(v.left.func) == "all" and len(v.left.args) == 1 \
+                    and isinstance(v.left.args[0], ast.Name) and not v.left.keywords and _num(v.comparators[0]) == 0 and _cmp(v) == "ge":
+                lower, lname = ".vacuousAll", v.left.args[0].id  # all(...) is a bool; bool >= 0 is constantly true
+            elif isinstance(v, ast.Call) and nrm(v.func) == "all" and len(v.args) == 1 and isinstance(v.args[0], ast.GeneratorExp) \
+                    and len(v.args[0].generators) == 1 and isinstance(v.args[0].generators[0].iter, ast.Name) and not v.args[0].generators[0].ifs:
+                c, g = v.args[0].elt, v.args[0].generators[0]
+                if isinstance(c, ast.Compare) and nrm(c.left) == nrm(g.target) and _num(c.comparators[0]) == 0:
+                    lower, lname = f"(.elementwise .{_cmp(c)})", g.iter.id
+            elif isinstance(v, ast.Compare) and isinstance(v.left, ast.Call) and nrm(v.left.func) in ("min", "np.min") and len(v.left.args) == 1 \
+                    and isinstance(v.left.args[0], ast.Name) and _num(v.comparators[0]) == 0 and _cmp(v) in ("ge", "gt"):
+                lower, lname = f"(.elementwise .{_cmp(v)})", v.left.args[0].id
+        elif len(lows) == 3:
             ops = []
-            for i, v in enumerate(conj):
-                if not (isinstance(v, ast.Compare) and nrm(v.left) == f"c_min[{i}]" and _num(v.comparators[0]) == 0):
+            for i, v in enumerate(lows):
+                if not (isinstance(v, ast.Compare) and isinstance(v.left, ast.Subscript) and isinstance(v.left.value, ast.Name)
+                        and nrm(v.left.slice) == str(i) and _num(v.comparators[0]) == 0 and v.left.value.id == lows[0].left.value.id):
                     raise core.AnchorMissing("lower test of unknown form: " + nrm(v))
                 ops.append(_cmp(v))
-            return f"(.elementwise .{_same(ops, 'lower test')})"
-        raise core.AnchorMissing("remove_out_of_bounds_particles: no recognisable lower-face test")
-
-    def oob_upper():
-        conj = sorted((v for v in oob_test().values if "c_max" in ast.unparse(v)), key=lambda n: (n.lineno, n.col_offset))
-        if len(conj) != 3:
-            raise core.AnchorMissing(f"expected three upper-face conjuncts, found {len(conj)}")
-        ops = []
-        for i, (v, ax) in enumerate(zip(conj, "xyz")):
-            if not (isinstance(v, ast.Compare) and nrm(v.left) == f"c_max[{i}]" and nrm(v.comparators[0]) == f"tomo_dim['{ax}'][0]"):
-                raise core.AnchorMissing(f"upper conjunct {i} is `{nrm(v)}`, expected c_max[{i}] <op> tomo_dim['{ax}'][0]")
-            ops.append(_cmp(v))
-        return _same(ops, "upper test")
-
-    def oob_minmax():
-        got = {}
-        for n in ast.walk(oob_fn()):
-            if isinstance(n, ast.Assign) and isinstance(n.targets[0], ast.Name) and n.targets[0].id in ("c_min", "c_max"):
-                got[n.targets[0].id] = nrm(n.value)
-        want = {"c_min": "[c-boundaryforcinrow['x':'z']]", "c_max": "[c+boundaryforcinrow['x':'z']]"}
-        if got != want:
-            raise core.AnchorMissing(f"c_min/c_max are {got}")
-        return "c-boundary / c+boundary over row['x':'z']"
-
-    def oob_boundary():
-        vals = [nrm(n.value) for n in ast.walk(oob_fn()) if isinstance(n, ast.Assign) and nrm(n.targets[0]) == "boundary"]
-        if len(vals) != 2 or vals[1] != "0":
-            raise core.AnchorMissing(f"boundary assignments are {vals}")
+            lower, lname = f"(.elementwise .{_same(ops, 'lower test')})", lows[0].left.value.id
+        if lower is None:
+            raise core.AnchorMissing("lower-face test of unknown form: " + " and ".join(nrm(v) for v in lows))
+        oob["lower"] = lower
+        first_low = min(test.values.index(v) for v in lows)
+        vals = []
+        for k, v in enumerate(test.values):
+            if is_upper(v):
+                vals.append(_hole("CMP_UPPER", v.left, v.comparators[0]))
+            elif k == first_low:
+                vals.append(_hole("LOWER_FACES_OK", _hname(lname)))
+        repl[id(test)] = ast.BoolOp(op=ast.And(), values=vals)
+        # ---- boundary = ceil(box_size / 2)
         table = {"ceil(box_size/2)": ("ceil", 2), "math.ceil(box_size/2)": ("ceil", 2), "np.ceil(box_size/2)": ("ceil", 2),
+                 "int(np.ceil(box_size/2))": ("ceil", 2), "int(ceil(box_size/2))": ("ceil", 2), "-(-box_size//2)": ("ceil", 2),
+                 "(box_size+1)//2": ("ceil", 2),
                  "floor(box_size/2)": ("floor", 2), "box_size//2": ("floor", 2), "int(box_size/2)": ("floor", 2)}
-        if vals[0] not in table:
-            raise core.AnchorMissing(f"boundary for 'whole' is `{vals[0]}`")
-        return list(table[vals[0]])
+        half = [n for n in ast.walk(fn) if isinstance(n, ast.Assign) and "box_size" in nrm(n.value) and isinstance(n.targets[0], ast.Name)]
+        if len(half) != 1:
+            raise core.AnchorMissing(f"expected one assignment computed from box_size, found {[nrm(n) for n in half]}")
+        if nrm(half[0].value) not in table:
+            raise core.AnchorMissing(f"boundary for 'whole' is `{nrm(half[0].value)}`")
+        oob["half"] = list(table[nrm(half[0].value)])
+        repl[id(half[0].value)] = _hole("HALF_BOX", _hname("box_size"))
+        sk["oob"] = _skeleton(fn, repl)
+        dflt["oob"] = _defaults(fn)
+        return f"lower {lower}, upper {oob['upper']}, half box {oob['half']}"
 
-    def oob_types():
-        tests = [nrm(n.test) for n in ast.walk(oob_fn()) if isinstance(n, ast.If) and "boundary_type" in ast.unparse(n.test)]
-        if tests != ["boundary_type=='whole'", "boundary_type=='center'"]:
-            raise core.AnchorMissing(f"boundary type tests are {tests}")
-        return tests
+    A("oob:operators (lower-face form, upper-face operator, half box) + body skeleton", oob_parse)
 
-    def oob_coords():
-        txt = nrm(oob_fn())
-        if "recentered=self.get_coordinates()" not in txt:
-            raise core.AnchorMissing("remove_out_of_bounds_particles does not use self.get_coordinates()")
-        return "recentered=self.get_coordinates()"
+    # ---------------------------------------------------------------- adapt_to_trimming
+    trim = {}
 
-    lower = A("oob:lower-face test", oob_lower)
-    upper = A("oob:upper-face operator", oob_upper)
-    A("oob:c_min/c_max", oob_minmax)
-    bnd = A("oob:boundary=ceil(box_size/2)", oob_boundary)
-    A("oob:boundary types", oob_types)
-    A("oob:uses complete position", oob_coords)
+    def trim_parse():
+        fn = canon(REL, "Motl.adapt_to_trimming")
+        repl = {}
+        offs = [n for n in ast.walk(fn) if isinstance(n, ast.BinOp) and isinstance(n.op, ast.Sub) and nrm(n.left) == "np.asarray(trim_coord_start)"]
+        if len(offs) != 1:
+            raise core.AnchorMissing(f"expected one `np.asarray(trim_coord_start) - k`, found {len(offs)}")
+        k = _num(offs[0].right)
+        if k != int(k) or k < 0:
+            raise core.AnchorMissing(f"offset {k}")
+        trim["offset"] = int(k)
+        repl[id(offs[0].right)] = _hname("OFFSET")
+        cs = sorted((n for n in ast.walk(fn) if isinstance(n, ast.Compare) and re.fullmatch(r"self\.df\['[xyz]'\]", nrm(n.left))),
+                    key=lambda n: (n.lineno, n.col_offset))
+        low = [c for c in cs if isinstance(c.comparators[0], ast.Constant)]
+        high = [c for c in cs if not isinstance(c.comparators[0], ast.Constant)]
+        if len(low) != 3 or len(high) != 3:
+            raise core.AnchorMissing(f"expected 3+3 comparisons of self.df[axis], found {len(low)}+{len(high)}")
+        for c, ax in zip(low, "xyz"):
+            if nrm(c.left) != f"self.df['{ax}']":
+                raise core.AnchorMissing("low test on " + nrm(c.left))
+        b = _same([_num(c.comparators[0]) for c in low], "trim low bound")
+        if b != int(b) or b < 0:
+            raise core.AnchorMissing(f"low bound {b}")
+        trim["low"] = [_same([_cmp(c) for c in low], "trim low"), int(b)]
+        for i, (c, ax) in enumerate(zip(high, "xyz")):
+            r = c.comparators[0]
+            if nrm(c.left) != f"self.df['{ax}']" or not (isinstance(r, ast.Subscript) and isinstance(r.value, ast.Name) and nrm(r.slice) == str(i)
+                                                        and r.value.id == high[0].comparators[0].value.id):
+                raise core.AnchorMissing("high test `" + nrm(c) + "`")
+        trim["high"] = _same([_cmp(c) for c in high], "trim high")
+        for c in low:
+            repl[id(c)] = _hole("CMP_LOW", c.left, _hname("LOW_BOUND"))
+        for c in high:
+            repl[id(c)] = _hole("CMP_HIGH", c.left, c.comparators[0])
+        sk["trim"] = _skeleton(fn, repl)
+        return f"offset {trim['offset']}, low {trim['low']}, high {trim['high']}"
 
-    # ---- adapt_to_trimming
-    def trim_fn():
-        return src.find(REL, "Motl.adapt_to_trimming")
+    A("trim:operators (offset, low test, high test) + body skeleton", trim_parse)
 
-    def trim_offset():
-        for n in ast.walk(trim_fn()):
-            if isinstance(n, ast.Assign) and nrm(n.targets[0]) == "trimvol_coord":
-                v = n.value
-                if isinstance(v, ast.BinOp) and isinstance(v.op, ast.Sub) and nrm(v.left) == "np.asarray(trim_coord_start)":
-                    k = _num(v.right)
-                    if k == int(k) and k >= 0:
-                        return int(k)
-                raise core.AnchorMissing("trimvol_coord is `" + nrm(v) + "`")
-        raise core.AnchorMissing("trimvol_coord assignment not found")
+    # ---------------------------------------------------------------- clean_by_tomo_mask
+    mask = {}
 
-    def trim_tdim():
-        for n in ast.walk(trim_fn()):
-            if isinstance(n, ast.Assign) and nrm(n.targets[0]) == "tdim":
-                if nrm(n.value) == "np.asarray(trim_coord_end)-trimvol_coord":
-                    return nrm(n.value)
-                raise core.AnchorMissing("tdim is `" + nrm(n.value) + "`")
-        raise core.AnchorMissing("tdim assignment not found")
-
-    def trim_shift():
-        for n in ast.walk(trim_fn()):
-            if isinstance(n, ast.Assign) and nrm(n.targets[0]) == "self.df.loc[:,['x','y','z']]":
-                want = "self.df.loc[:,['x','y','z']]-np.tile(trimvol_coord,(self.df.shape[0],1))"
-                if nrm(n.value) == want:
-                    return "x,y,z -= trimvol_coord"
-                raise core.AnchorMissing("coordinate update is `" + nrm(n.value) + "`")
-        raise core.AnchorMissing("coordinate update not found")
-
-    def trim_cmps(which):
-        def f():
-            cs = sorted((n for n in ast.walk(trim_fn()) if isinstance(n, ast.Compare) and nrm(n.left).startswith("self.df['")),
-                        key=lambda n: (n.lineno, n.col_offset))
-            low = [c for c in cs if isinstance(c.comparators[0], ast.Constant)]
-            high = [c for c in cs if not isinstance(c.comparators[0], ast.Constant)]
-            if len(low) != 3 or len(high) != 3:
-                raise core.AnchorMissing(f"expected 3+3 comparisons, found {len(low)}+{len(high)}")
-            if which == "low":
-                for c, ax in zip(low, "xyz"):
-                    if nrm(c.left) != f"self.df['{ax}']":
-                        raise core.AnchorMissing("low test on " + nrm(c.left))
-                b = _same([_num(c.comparators[0]) for c in low], "trim low bound")
-                if b != int(b) or b < 0:
-                    raise core.AnchorMissing(f"low bound {b}")
-                return [_same([_cmp(c) for c in low], "trim low"), int(b)]
-            for i, (c, ax) in enumerate(zip(high, "xyz")):
-                if nrm(c.left) != f"self.df['{ax}']" or nrm(c.comparators[0]) != f"tdim[{i}]":
-                    raise core.AnchorMissing("high test `" + nrm(c) + "`")
-            return _same([_cmp(c) for c in high], "trim high")
-        return f
-
-    def trim_negations():
-        txt = nrm(trim_fn())
-        a = "self.df.loc[~((self.df['x']" in txt
-        if txt.count("self.df=self.df.loc[~(") != 2 or not a:
-            raise core.AnchorMissing("the two `self.df = self.df.loc[~(... | ... | ...), :]` filters are not there")
-        ors = [n for n in ast.walk(trim_fn()) if isinstance(n, ast.BinOp) and isinstance(n.op, ast.BitOr)]
-        if len(ors) != 4:
-            raise core.AnchorMissing(f"expected 4 `|`, found {len(ors)}")
-        return "drop rows where any axis is out"
-
-    toff = A("trim:trimvol_coord=start-1", trim_offset)
-    A("trim:tdim=end-trimvol_coord", trim_tdim)
-    A("trim:x,y,z shifted", trim_shift)
-    tlow = A("trim:low test", trim_cmps("low"))
-    thigh = A("trim:high test", trim_cmps("high"))
-    A("trim:negated any-axis filters", trim_negations)
-
-    # ---- clean_by_tomo_mask
-    def mask_fn():
-        return src.find(REL, "Motl.clean_by_tomo_mask")
-
-    def mask_within():
-        for n in ast.walk(mask_fn()):
-            if isinstance(n, ast.Assign) and nrm(n.targets[0]) == "within_bounds":
-                return n.value
-        raise core.AnchorMissing("within_bounds assignment not found")
-
-    def mask_low():
-        w = mask_within()
-        for n in ast.walk(w):
-            if isinstance(n, ast.Call) and nrm(n.func) == "np.all" and n.args and isinstance(n.args[0], ast.Compare) \
-                    and nrm(n.args[0].left) == "coords" and _num(n.args[0].comparators[0]) == 0 \
-                    and any(k.arg == "axis" and _num(k.value) == 1 for k in n.keywords):
-                return _cmp(n.args[0])
-        raise core.AnchorMissing("no `np.all(coords >= 0, axis=1)` in within_bounds")
-
-    def mask_high():
-        cs = sorted((n for n in ast.walk(mask_within()) if isinstance(n, ast.Compare) and nrm(n.left).startswith("coords[")),
+    def mask_parse():
+        fn = canon(REL, "Motl.clean_by_tomo_mask")
+        repl = {}
+        lows = [n for n in ast.walk(fn) if isinstance(n, ast.Call) and nrm(n.func) == "np.all" and n.args and isinstance(n.args[0], ast.Compare)
+                and isinstance(n.args[0].left, ast.Name) and any(k.arg == "axis" and _num(k.value) == 1 for k in n.keywords)]
+        if len(lows) != 1 or _num(lows[0].args[0].comparators[0]) != 0:
+            raise core.AnchorMissing("no single `np.all(coords <op> 0, axis=1)`")
+        cname = lows[0].args[0].left.id
+        mask["low"] = _cmp(lows[0].args[0])
+        repl[id(lows[0].args[0])] = _hole("CMP_IDX_LOW", lows[0].args[0].left, lows[0].args[0].comparators[0])
+        cs = sorted((n for n in ast.walk(fn) if isinstance(n, ast.Compare) and re.fullmatch(cname + r"\[:,\d\]", nrm(n.left))),
                     key=lambda n: (n.lineno, n.col_offset))
         if len(cs) != 3:
-            raise core.AnchorMissing(f"expected 3 upper comparisons, found {len(cs)}")
+            raise core.AnchorMissing(f"expected 3 upper comparisons of {cname}[:, i], found {len(cs)}")
         for i, c in enumerate(cs):
-            if nrm(c.left) != f"coords[:,{i}]" or nrm(c.comparators[0]) != f"tomo_mask.shape[{i}]":
+            m = re.fullmatch(VN + r"\.shape\[(\d)\]", nrm(c.comparators[0]))
+            if nrm(c.left) != f"{cname}[:,{i}]" or not m or int(m.group(2)) != i:
                 raise core.AnchorMissing("upper comparison `" + nrm(c) + "`")
-        ands = [n for n in ast.walk(mask_within()) if isinstance(n, ast.BinOp) and isinstance(n.op, ast.BitAnd)]
-        if len(ands) != 3:
-            raise core.AnchorMissing("within_bounds is not a conjunction of four tests")
-        return _same([_cmp(c) for c in cs], "mask high")
+        mask["high"] = _same([_cmp(c) for c in cs], "mask high")
+        for c in cs:
+            repl[id(c)] = _hole("CMP_IDX_HIGH", c.left, c.comparators[0])
+        zs = [n for n in ast.walk(fn) if isinstance(n, ast.Call) and nrm(n.func) == "np.where" and len(n.args) == 1 and isinstance(n.args[0], ast.Compare)]
+        if len(zs) != 1 or _num(zs[0].args[0].comparators[0]) != 0:
+            raise core.AnchorMissing("no single `np.where(mask_values <op> 0)`")
+        mask["zero"] = _cmp(zs[0].args[0])
+        repl[id(zs[0].args[0])] = _hole("CMP_VOXEL", zs[0].args[0].left, zs[0].args[0].comparators[0])
+        # ---- which rows are dropped for the collected ids
+        loops = [n for n in fn.body if isinstance(n, ast.For)]
+        if len(loops) != 1 or not (isinstance(loops[0].target, ast.Tuple) and len(loops[0].target.elts) == 2 and nrm(loops[0].iter).startswith("enumerate(")):
+            raise core.AnchorMissing("no single `for i, t in enumerate(tomos)` loop")
+        tname = loops[0].target.elts[1].id
+        scope = None
+        for st in loops[0].body:
+            t = nrm(st)
+            m = re.fullmatch(VN + r"\.remove_feature\('subtomo_id'," + VN + r"\)", t)
+            if m:
+                scope, c, ids = "byId", m.group(1), m.group(2)
+            m2 = re.fullmatch(VN + r"\.df=\1\.df\.loc\[~\(\(\1\.df\['tomo_id'\]==" + VN + r"\)&\1\.df\['subtomo_id'\]\.isin\(" + VN + r"\)\)\]", t)
+            if m2 and m2.group(2) == tname:
+                scope, c, ids = "byTomoAndId", m2.group(1), m2.group(3)
+            if m or (m2 and m2.group(2) == tname):
+                if "stmt" in mask:
+                    raise core.AnchorMissing("more than one removal statement in the loop")
+                mask["stmt"] = True
+                repl[id(st)] = ast.Expr(value=_hole("DROP_ROWS", _hname(c), _hname(tname), _hname(ids)))
+        if scope is None:
+            raise core.AnchorMissing("the statement that drops the rows of the collected subtomo ids has an unknown form")
+        mask["scope"] = scope
+        lines = _skeleton(fn, repl)
+        sk["mask"] = lines
+        dflt["mask"] = _defaults(fn)
+        txt = "\n".join(l.strip().replace(" ", "") for l in lines)
+        # the ids are taken from the id array filtered by the SAME bounds mask as the coordinates
+        m = re.search(r"^" + VN + r"=" + VN + r"\[" + VN + r"\]$\n^" + VN + r"=" + VN + r"\.df\['subtomo_id'\]\.values\[\3\]$", txt, re.M)
+        m2 = re.search(r"^" + VN + r"=" + VN + r"\[" + VN + r"\]$", txt[m.end():], re.M) if m else None
+        mask["ids_through"] = bool(m and m.group(1) == m.group(2) and m2 and m2.group(2) == m.group(4))
+        return f"low {mask['low']}, high {mask['high']}, voxel {mask['zero']}, scope {scope}, ids through the bounds filter {mask['ids_through']}"
 
-    def mask_zero():
-        for n in ast.walk(mask_fn()):
-            if isinstance(n, ast.Assign) and nrm(n.targets[0]) == "idx_to_remove":
-                v = n.value
-                if nrm(v).startswith("np.where(mask_values") and nrm(v).endswith(")[0]"):
-                    c = v.value.args[0]
-                    if nrm(c.left) == "mask_values" and _num(c.comparators[0]) == 0:
-                        return _cmp(c)
-                raise core.AnchorMissing("idx_to_remove is `" + nrm(v) + "`")
-        raise core.AnchorMissing("idx_to_remove not found")
+    A("mask:operators (index bounds, voxel test, which rows are dropped) + body skeleton", mask_parse)
 
-    def mask_ids():
-        txt = nrm(mask_fn())
-        need = ["coords=tm.get_coordinates().astype(int)", "coords=coords[within_bounds]",
-                "subtomo_ids_within=tm.df['subtomo_id'].values[within_bounds]",
-                "mask_values=tomo_mask[coords[:,0],coords[:,1],coords[:,2]]",
-                "subtomo_idx=subtomo_ids_within[idx_to_remove]",
-                "cleaned_motl.remove_feature('subtomo_id',subtomo_idx)"]
-        miss = [s for s in need if s not in txt]
-        if miss:
-            raise core.AnchorMissing("clean_by_tomo_mask lacks " + "; ".join(miss))
-        return True
+    # ---------------------------------------------------------------- whole-body skeletons
+    def whole(key, rel, qual):
+        def f():
+            fn = canon(rel, qual)
+            sk[key] = _skeleton(fn, {})
+            dflt[key] = _defaults(fn)
+            return f"{len(sk[key])} lines"
+        return f
 
-    mlow = A("mask:lower bound coords>=0", mask_low)
-    mhigh = A("mask:upper bound coords<shape", mask_high)
-    mzero = A("mask:mask_values==0", mask_zero)
-    mids = A("mask:ids carried through the bounds filter", mask_ids)
+    A("points:body skeleton (KDTree of the particles, closed-ball query per reference point, per tomogram)", whole("points", REL, "Motl.clean_by_distance_to_points"))
+    A("get_coordinates:body skeleton", whole("coords", REL, "Motl.get_coordinates"))
+    A("dimensions_load:body skeleton (all input forms, N x 4 column naming)", whole("dimsload", "cryocat/ioutils.py", "dimensions_load"))
 
-    # ---- get_coordinates, clean_by_distance_to_points, dimensions_load
+    binz = {}
+
+    def bin_parse():
+        fn = canon("cryocat/cryomap.py", "binarize")
+        cs = [n for n in ast.walk(fn) if isinstance(n, ast.Compare)]
+        if len(cs) != 1 or nrm(cs[0].left) != "input_map" or nrm(cs[0].comparators[0]) != "threshold":
+            raise core.AnchorMissing("binarize: no single `input_map <op> threshold`")
+        binz["cmp"] = _cmp(cs[0])
+        sk["binarize"] = _skeleton(fn, {id(cs[0]): _hole("CMP_BIN", cs[0].left, cs[0].comparators[0])})
+        dflt["binarize"] = _defaults(fn)
+        d = dict(map(tuple, dflt["binarize"])).get("threshold")
+        fr = Fraction(d) if d is not None else None
+        if fr is None or fr < 0:
+            raise core.AnchorMissing(f"binarize: default threshold {d}")
+        binz["thr"] = [fr.numerator, fr.denominator]
+        return f"{binz['cmp']} {d}"
+
+    A("binarize:operator and default threshold + body skeleton", bin_parse)
+
     def coords():
         fn = src.find(REL, "Motl.get_coordinates")
         found = []
@@ -296,23 +400,21 @@ def translate(src):
         return [found[0][1], found[0][2]]
 
     def points():
-        txt = nrm(src.find(REL, "Motl.clean_by_distance_to_points"))
-        need = ["coord1=feature_m.get_coordinates()", "coord2=points.loc[points[feature_id]==f,['x','y','z']].values",
-                "tree=KDTree(coord1)", "indices=tree.query_ball_point(point,r=radius_in_voxels)",
-                "cfm=feature_m.df.drop(index=indices_to_remove)", "features=self.get_unique_values(feature_id)",
-                "feature_m=self.get_motl_subset(f,feature_id=feature_id,reset_index=True)"]
-        miss = [s for s in need if s not in txt]
-        if miss:
-            raise core.AnchorMissing("clean_by_distance_to_points lacks " + "; ".join(miss))
-        imp = src.text(REL)
-        if "from scipy.spatial import KDTree" not in imp:
+        txt = "\n".join(l.strip().replace(" ", "") for l in sk.get("points", []))
+        m = re.search(r"^" + VN + r"=KDTree\(" + VN + r"\)$", txt, re.M)
+        q = re.search(r"^" + VN + r"=" + VN + r"\.query_ball_point\(" + VN + r",r=radius_in_voxels\)$", txt, re.M)
+        if not (m and q and q.group(2) == m.group(1)):
+            raise core.AnchorMissing("clean_by_distance_to_points: no `tree = KDTree(coord1)` / `tree.query_ball_point(point, r=radius_in_voxels)`")
+        if not re.search(r"^" + re.escape(m.group(2)) + r"=" + VN + r"\.get_coordinates\(\)$", txt, re.M):
+            raise core.AnchorMissing("the KD-tree is not built from the particles' complete positions")
+        if "from scipy.spatial import KDTree" not in src.text(REL):
             raise core.AnchorMissing("KDTree is not scipy.spatial.KDTree")
         return True
 
     def dimcols():
         fn = src.find("cryocat/ioutils.py", "dimensions_load")
         for n in ast.walk(fn):
-            if isinstance(n, ast.If) and nrm(n.test) == "dimensions.shape[1]==4" or (isinstance(n, ast.If) and "shape[1]==4" in nrm(n.test)):
+            if isinstance(n, ast.If) and "shape[1]==4" in nrm(n.test):
                 st = n.body[0]
                 if isinstance(st, ast.Assign) and nrm(st.targets[0]) == "dimensions.columns":
                     return src.literal(st.value)
@@ -321,26 +423,48 @@ def translate(src):
     cc = A("get_coordinates:x+shift", coords)
     pp = A("points:KDTree ball query per tomogram", points)
     dc = A("dimensions_load:N x 4 columns", dimcols)
+    for key in DOC_DEFAULTS:
+        A(f"defaults:{key}", (lambda k: (lambda: dflt[k] if k in dflt else (_ for _ in ()).throw(core.AnchorMissing("signature not read"))))(key))
 
-    lower = lower or ".vacuousAll"
-    upper = upper or "lt"
-    bnd = bnd or ["ceil", 2]
-    tlow = tlow or ["lt", 1]
+    # a missing anchor falls back to the DOCUMENTED value (anchorsOk is false then, so the check fails anyway)
+    lower = oob.get("lower", ".vacuousAll")
+    upper = oob.get("upper", "lt")
+    bnd = oob.get("half", ["ceil", 2])
+    tlow = trim.get("low", ["lt", 1])
     cc = cc if (isinstance(cc, list) and len(cc) == 2) else [["x", "y", "z"], ["shift_x", "shift_y", "shift_z"]]
     dc = dc if isinstance(dc, list) else ["tomo_id", "x", "y", "z"]
-    return f"""-- GENERATED by harness/props/c09.py from {REL} and cryocat/ioutils.py; do not edit
+    thr = binz.get("thr", [1, 2])
+    dl = lambda k: _lean_pairs(dflt.get(k, DOC_DEFAULTS[k]))
+    skl = lambda k: _lean_lines(sk.get(k, ["<missing>"]))
+    return f"""-- GENERATED by harness/props/c09.py from {REL}, cryocat/ioutils.py and cryocat/cryomap.py; do not edit
 import CryoCat.Model.C09_Base
 namespace CryoCat.Gen.C09
 open CryoCat.C09
 def anchorsOk : Bool := {"true" if src.ok else "false"}
 def oobCfg : OobCfg := {{ lower := {lower}, upper := .{upper}, rounding := .{bnd[0]}, divisor := {bnd[1]} }}
-def trimCfg : TrimCfg := {{ offset := {toff if toff is not None else 1}, lowCmp := .{tlow[0]}, lowBound := {tlow[1]}, highCmp := .{thigh or "gt"} }}
-def maskCfg : MaskCfg := {{ lowCmp := .{mlow or "ge"}, highCmp := .{mhigh or "lt"}, zeroCmp := .{mzero or "eq"} }}
-def maskIdsThroughFilter : Bool := {"true" if mids else "false"}
+def trimCfg : TrimCfg := {{ offset := {trim.get("offset", 1)}, lowCmp := .{tlow[0]}, lowBound := {tlow[1]}, highCmp := .{trim.get("high", "gt")} }}
+def maskCfg : MaskCfg := {{ lowCmp := .{mask.get("low", "ge")}, highCmp := .{mask.get("high", "lt")}, zeroCmp := .{mask.get("zero", "eq")}, scope := .{mask.get("scope", "byTomoAndId")} }}
+def binarizeCfg : BinarizeCfg := {{ cmp := .{binz.get("cmp", "gt")}, thrNum := {thr[0]}, thrDen := {thr[1]} }}
+def maskIdsThroughFilter : Bool := {"true" if mask.get("ids_through") else "false"}
 def pointsBallQueryPerTomogram : Bool := {"true" if pp else "false"}
 def coordColumns : List String := {core.lean_str_list(cc[0])}
 def shiftColumns : List String := {core.lean_str_list(cc[1])}
 def dimColumns : List String := {core.lean_str_list([str(c) for c in dc])}
+/-! signature defaults (parameter, default as written in the source) -/
+def oobDefaults : List (String × String) := {dl("oob")}
+def pointsDefaults : List (String × String) := {dl("points")}
+def maskDefaults : List (String × String) := {dl("mask")}
+def binarizeDefaults : List (String × String) := {dl("binarize")}
+def dimsLoadDefaults : List (String × String) := {dl("dimsload")}
+/-! body skeletons: the function without docstring, locals renamed v1, v2, ... in order of first binding, the
+operators/constants extracted above replaced by named holes (CMP_..., LOWER_FACES_OK, HALF_BOX, OFFSET, LOW_BOUND, DROP_ROWS) -/
+def oobSkeleton : List String := {skl("oob")}
+def trimSkeleton : List String := {skl("trim")}
+def maskSkeleton : List String := {skl("mask")}
+def pointsSkeleton : List String := {skl("points")}
+def coordsSkeleton : List String := {skl("coords")}
+def dimsLoadSkeleton : List String := {skl("dimsload")}
+def binarizeSkeleton : List String := {skl("binarize")}
 end CryoCat.Gen.C09
 """
 
@@ -417,6 +541,32 @@ def _ids(rng, n):
     return ids
 
 
+def _restamp_ids(rng, rows, mode=None):
+    """subtomo ids are data like any other: 'unique' (as generated), 'per-tomogram' (numbering restarts in every tomogram, so
+    the same id occurs in several tomograms), 'random-repeats' (ids drawn from a small pool). Returns the mode."""
+    mode = mode or rng.choice(["unique"] * 5 + ["per-tomogram"] * 3 + ["random-repeats"] * 2)
+    if mode == "per-tomogram":
+        nxt = {}
+        for r in rows:
+            nxt[r[I_TOMO]] = nxt.get(r[I_TOMO], 0) + 1
+            r[I_ID] = nxt[r[I_TOMO]] * SCALE
+    elif mode == "random-repeats":
+        pool = max(1, len(rows) // 2)
+        for r in rows:
+            r[I_ID] = rng.randint(1, pool) * SCALE
+    return mode
+
+
+def _history(rng, tier, case, regen):
+    """G1/G2 decoration of a generated case: omitted default keywords and further calls that re-use the caller's objects"""
+    if rng.random() < 0.15:
+        more = []
+        for _ in range(rng.choice([1, 1, 2])):
+            more.append(regen(rng, case))
+        case["more"] = more
+    return case
+
+
 def _nrows(rng, tier):
     r = rng.random()
     if tier == "search":
@@ -428,27 +578,9 @@ def _nrows(rng, tier):
     return rng.randint(4, 60 if r > 0.8 else 25)
 
 
-def gen_oob(rng, tier):
-    T = rng.randint(1, 4)
-    tomos = rng.sample(TOMO_POOL, T)
-    dims = {t: [rng.choice([rng.randint(8, 40), rng.randint(40, 128), rng.randint(8, 128)]) for _ in range(3)] for t in tomos}
-    r = rng.random()
-    if r < 0.42:
-        bt, box = "center", (None if rng.random() < 0.7 else rng.randint(1, 64))
-    elif r < 0.93:
-        bt, box = "whole", rng.choice([rng.randint(1, 8), rng.randint(1, 64), rng.randint(1, 64)])
-    elif r < 0.96:
-        bt, box = "whole", rng.choice([None, 0])
-    else:
-        bt, box = rng.choice(["centre", "Whole", "box", ""]), rng.choice([None, 10])
-    b = Fraction((box + 1) // 2) if (bt == "whole" and box) else Fraction(0)
-    n = _nrows(rng, tier)
+def _oob_rows(rng, n, tomos, dims, b, missing, style):
     ids = _ids(rng, n)
     rows = []
-    style = rng.random()
-    # a tomogram with particles but without dimensions (KeyError in the real code): its particles all respect the
-    # lower faces, so that the outcome does not depend on whether a (repaired) lower test short-circuits the lookup
-    missing = rng.choice(tomos) if (len(tomos) > 1 and rng.random() < 0.05) else None
     for k in range(n):
         t = rng.choice(tomos)
         dim = dims[t]
@@ -467,23 +599,74 @@ def gen_oob(rng, tier):
             kinds = [rng.choice(OOB_KINDS_ON + OOB_KINDS_OFF) for _ in range(3)]
         c = [_axis_oob(rng, b, Fraction(dim[a]), kinds[a]) for a in range(3)]
         rows.append(_row(rng, ids[k], t, c))
-    dim_rows = [[_i(t)] + [_i(v) for v in dims[t]] for t in tomos]
-    rng.shuffle(dim_rows)
+    _restamp_ids(rng, rows)
+    return rows
+
+
+def _rand_dims(rng):
+    return [rng.choice([rng.randint(8, 40), rng.randint(40, 128), rng.randint(8, 128)]) for _ in range(3)]
+
+
+def gen_oob(rng, tier):
+    T = rng.randint(1, 4)
+    tomos = rng.sample(TOMO_POOL, T)
+    dims = {t: _rand_dims(rng) for t in tomos}
+    r = rng.random()
+    if r < 0.42:
+        bt, box = "center", (None if rng.random() < 0.7 else rng.randint(1, 64))
+    elif r < 0.93:
+        bt, box = "whole", rng.choice([rng.randint(1, 8), rng.randint(1, 64), rng.randint(1, 64), 4 * rng.randint(0, 15) + rng.choice([1, 1, 2, 3, 4])])
+    elif r < 0.96:
+        bt, box = "whole", rng.choice([None, 0])
+    else:
+        bt, box = rng.choice(["centre", "Whole", "box", ""]), rng.choice([None, 10])
+    b = Fraction((box + 1) // 2) if (bt == "whole" and box) else Fraction(0)
+    n = _nrows(rng, tier)
+    style = rng.random()
+    # a tomogram with particles but without dimensions (KeyError in the real code): its particles all respect the
+    # lower faces, so that the outcome does not depend on whether a (repaired) lower test short-circuits the lookup
+    missing = rng.choice(tomos) if (len(tomos) > 1 and rng.random() < 0.05) else None
+    rows = _oob_rows(rng, n, tomos, dims, b, missing, style)
+    order = list(tomos)
+    rng.shuffle(order)
+    extra_rows = []
     variant = "plain"
     v = rng.random()
     if v < 0.15:  # a tomogram that has dimensions but no particles
         extra = rng.choice([t for t in TOMO_POOL if t not in tomos])
-        dim_rows.insert(rng.randrange(len(dim_rows) + 1), [_i(extra)] + [_i(rng.randint(8, 128)) for _ in range(3)])
+        extra_rows.append((rng.randrange(len(order) + 1), [_i(extra)] + [_i(rng.randint(8, 128)) for _ in range(3)]))
         variant = "extra-tomogram"
     elif v < 0.22:  # a second, different row for a tomogram: the first one counts
         t = rng.choice(tomos)
-        dim_rows.append([_i(t)] + [_i(rng.randint(8, 128)) for _ in range(3)])
+        extra_rows.append((len(order), [_i(t)] + [_i(rng.randint(8, 128)) for _ in range(3)]))
         variant = "duplicate-row"
     if missing is not None:
-        dim_rows = [d for d in dim_rows if d[0] != _i(missing)]
         variant = "missing-tomogram"
-    return dict(op="oob", scale=SCALE, rows=rows, dims=dim_rows, bt=bt, box=box, variant=variant,
-                dims_as=rng.choice(["ndarray", "dataframe"]))
+
+    def table(dims):
+        dr = [[_i(t)] + [_i(x) for x in dims[t]] for t in order]
+        for pos, row in extra_rows:
+            dr.insert(pos, row)
+        return [d for d in dr if missing is None or d[0] != _i(missing)]
+
+    dim_rows = table(dims)
+    forms = ["ndarray", "dataframe", "ndarray", "dataframe", "file"] + (["list", "ndarray1d"] if len(dim_rows) == 1 else [])
+    case = dict(op="oob", scale=SCALE, rows=rows, dims=dim_rows, bt=bt, box=box, variant=variant, dims_as=rng.choice(forms))
+    if bt == "center" and rng.random() < 0.6:
+        case["omit"] = ["boundary_type"]
+
+    def again(rng, case):
+        nxt = dict(rows=None)
+        d2 = dims
+        if rng.random() < 0.5:  # the caller edits the same table in place / rewrites the same file: other dimensions, same tomograms
+            d2 = {t: _rand_dims(rng) for t in tomos}
+            nxt["dims"] = table(d2)
+        nxt["rows"] = _oob_rows(rng, rng.randint(1, 12), tomos, d2, b, missing, rng.random())
+        return nxt
+    case = _history(rng, tier, case, again)
+    if case.get("more") and rng.random() < 0.4:
+        case["dims_as"] = "file"  # the same path read again (and, where the table was edited, rewritten) by every call
+    return case
 
 
 def _axis_trim(rng, s, e, kind):
@@ -494,21 +677,7 @@ def _axis_trim(rng, s, e, kind):
             "neg": -Fraction(rng.randint(0, 20), 2)}[kind]
 
 
-def gen_trim(rng, tier):
-    s = [Fraction(rng.randint(1, 40)) for _ in range(3)]
-    size = [rng.choice([1, 2, rng.randint(1, 64), rng.randint(8, 64)]) for _ in range(3)]
-    e = [s[a] + size[a] - 1 for a in range(3)]
-    variant = "plain"
-    v = rng.random()
-    if v < 0.05:
-        a = rng.randrange(3)
-        e[a] = s[a] - rng.randint(1, 3)  # empty trimmed volume
-        variant = "empty-volume"
-    elif v < 0.12:
-        a = rng.randrange(3)
-        s[a] += Fraction(1, 2)
-        variant = "half-voxel-start"
-    n = _nrows(rng, tier)
+def _trim_rows(rng, n, s, e):
     ids = _ids(rng, n)
     tomos = rng.sample(TOMO_POOL, rng.randint(1, 4))
     rows = []
@@ -522,40 +691,74 @@ def gen_trim(rng, tier):
             kinds = [rng.choice(on + off) for _ in range(3)]
         x = [_axis_trim(rng, s[a], e[a], kinds[a]) for a in range(3)]
         rows.append(_row(rng, ids[k], rng.choice(tomos), x, split=False))
-    return dict(op="trim", scale=SCALE, rows=rows, start=[_i(v) for v in s], end=[_i(v) for v in e], variant=variant,
-                args_as=rng.choice(["list", "ndarray"]))
+    _restamp_ids(rng, rows)
+    return rows
+
+
+def _trim_box(rng):
+    s = [Fraction(rng.randint(1, 40)) for _ in range(3)]
+    size = [rng.choice([1, 2, rng.randint(1, 64), rng.randint(8, 64)]) for _ in range(3)]
+    e = [s[a] + size[a] - 1 for a in range(3)]
+    return s, e
+
+
+def gen_trim(rng, tier):
+    s, e = _trim_box(rng)
+    variant = "plain"
+    v = rng.random()
+    if v < 0.05:
+        a = rng.randrange(3)
+        e[a] = s[a] - rng.randint(1, 3)  # empty trimmed volume
+        variant = "empty-volume"
+    elif v < 0.12:
+        a = rng.randrange(3)
+        s[a] += Fraction(1, 2)
+        variant = "half-voxel-start"
+    rows = _trim_rows(rng, _nrows(rng, tier), s, e)
+    forms = ["list", "ndarray", "ndarray"] + (["ndarray-int", "tuple"] if variant != "half-voxel-start" else [])
+    case = dict(op="trim", scale=SCALE, rows=rows, start=[_i(v) for v in s], end=[_i(v) for v in e], variant=variant, args_as=rng.choice(forms))
+
+    def again(rng, case):
+        s2, e2 = s, e
+        nxt = {}
+        if rng.random() < 0.35:  # the caller writes another (integer) trim box into the same arrays
+            s2, e2 = _trim_box(rng)
+            nxt.update(start=[_i(v) for v in s2], end=[_i(v) for v in e2])
+        nxt["rows"] = _trim_rows(rng, rng.randint(1, 12), s2, e2)
+        return nxt
+    if rng.random() < 0.12 and "more" not in case:  # the history stream proper: same box for the lists of several tomograms
+        case["more"] = [again(rng, case) for _ in range(rng.choice([1, 2]))]
+        return case
+    return _history(rng, tier, case, again)
 
 
 TRIPLES = [(3, 4, 0), (0, 3, 4), (4, 0, 3), (1, 2, 2), (2, 3, 6), (6, 2, 3), (5, 12, 0), (0, 0, 1), (1, 0, 0), (8, 9, 12), (2, 6, 9)]
 NORMS = {t: int(math.isqrt(sum(c * c for c in t))) for t in TRIPLES}
 
 
-def gen_points(rng, tier):
-    T = rng.randint(1, 4)
-    tomos = rng.sample(TOMO_POOL, T)
-    n = _nrows(rng, tier)
-    if rng.random() < 0.2:
-        n = max(n, rng.randint(25, 60))  # enough rows in one tomogram for the KD-tree to split (leafsize 10)
+def _points_rows(rng, n, tomos, ext, g):
     ids = _ids(rng, n)
-    ext = rng.choice([8, 16, 32])
-    g = rng.choice([1, 2, 4])
     rows, cs = [], []
     for k in range(n):
         t = tomos[0] if rng.random() < 0.5 else rng.choice(tomos)
         c = [Fraction(rng.randint(0, ext * g), g) for _ in range(3)]
         cs.append((t, c))
         rows.append(_row(rng, ids[k], t, c))
-    r = rng.choice([Fraction(0), Fraction(rng.randint(1, 12 * 4), 4), Fraction(rng.randint(1, ext * 2), 2), Fraction(rng.randint(4, 40), 4)])
+    _restamp_ids(rng, rows)
+    return rows, cs
+
+
+def _points_pts(rng, m, tomos, cs, r, ext, g):
+    """m reference points (wire rows) around the particles cs; returns (pts, r, variant) - r may be replaced by a tie radius"""
     variant = "plain"
     pts = []
     foreign = [t for t in TOMO_POOL if t not in tomos]
-    m = rng.choice([0, 1, 2, 3, rng.randint(1, 8), rng.randint(1, 8)])
     for _ in range(m):
         pr = rng.random()
-        if pr < 0.35 and r > 0:  # exact tie: a point at distance exactly r (or r +- 1/4 grid step) from a particle
+        if pr < 0.35 and r > 0:  # exact tie: a point at distance exactly r (or r +- one grid step) from a particle
             t, c = rng.choice(cs)
             tr = rng.choice(TRIPLES)
-            k = Fraction(rng.randint(1, 6), 4)
+            k = Fraction(rng.randint(1, 6), 4) if rng.random() < 0.6 else Fraction(rng.randint(1, 3))  # 1/4 grid or integer multiples (3-4-5)
             sg = [rng.choice([-1, 1]) for _ in range(3)]
             p = [c[a] + sg[a] * tr[a] * k for a in range(3)]
             mode = rng.random()
@@ -578,36 +781,60 @@ def gen_points(rng, tier):
         else:
             t = rng.choice(tomos)
             pts.append([_i(t)] + [_i(Fraction(rng.randint(-2 * g, (ext + 2) * g), g)) for _ in range(3)])
-    return dict(op="points", scale=SCALE, rows=rows, pts=pts, r=_i(r), variant=variant, inplace=rng.random() < 0.5,
-                pts_int_dtype=rng.random() < 0.3)
+    return pts, r, variant
 
 
-def gen_mask(rng, tier):
+def gen_points(rng, tier):
     T = rng.randint(1, 4)
     tomos = rng.sample(TOMO_POOL, T)
-    single = rng.random() < 0.2
-    listed = [t for t in tomos if rng.random() < 0.8] or [tomos[0]]
-    rng.shuffle(listed)
-    variant = "single-mask" if single else "plain"
-    if rng.random() < 0.15:
-        listed.insert(rng.randrange(len(listed) + 1), rng.choice([t for t in TOMO_POOL if t not in tomos]))
-    masks = []
-    for _ in range(1 if single else len(listed)):
-        shape = [rng.randint(2, 9) for _ in range(3)]
-        p0 = rng.choice([0.0, 0.3, 0.5, 0.7, 1.0]) if rng.random() < 0.25 else rng.choice([0.3, 0.5, 0.7])
-        masks.append(dict(shape=shape, data=[0 if rng.random() < p0 else 1 for _ in range(shape[0] * shape[1] * shape[2])]))
-    if not single and rng.random() < 0.03:
-        if rng.random() < 0.5 and len(masks) > 1:
-            masks.pop()
-        else:
-            masks.append(masks[0])
-        variant = "list-length-mismatch"
-    shape_of = {}
-    for i, t in enumerate(listed):
-        shape_of.setdefault(t, masks[0]["shape"] if single else masks[min(i, len(masks) - 1)]["shape"])
     n = _nrows(rng, tier)
+    if rng.random() < 0.2:
+        n = max(n, rng.randint(25, 60))  # enough rows in one tomogram for the KD-tree to split (leafsize 10)
+    ext = rng.choice([8, 16, 32])
+    g = rng.choice([1, 1, 2, 4])
+    rows, cs = _points_rows(rng, n, tomos, ext, g)
+    r = rng.choice([Fraction(0), Fraction(rng.randint(1, 12 * 4), 4), Fraction(rng.randint(1, ext * 2), 2), Fraction(rng.randint(4, 40), 4),
+                    Fraction(rng.choice([5, 10, 13, 3, 7]))])
+    m = rng.choice([0, 1, 2, 3, rng.randint(1, 8), rng.randint(1, 8)])
+    pts, r, variant = _points_pts(rng, m, tomos, cs, r, ext, g)
+    inplace = rng.random() < 0.5
+    case = dict(op="points", scale=SCALE, rows=rows, pts=pts, r=_i(r), variant=variant, inplace=inplace, pts_int_dtype=rng.random() < 0.3)
+    if inplace and rng.random() < 0.6:
+        case["omit"] = ["inplace"]
+
+    def again(rng, case):
+        rows2, cs2 = _points_rows(rng, rng.randint(1, 14), tomos, ext, g)
+        nxt = dict(rows=rows2)
+        if m and rng.random() < 0.4:  # the caller overwrites the coordinates in the same points table (same number of points)
+            pts2, r2, _ = _points_pts(rng, m, tomos, cs2, r, ext, g)
+            nxt.update(pts=pts2, r=_i(r2))
+        return nxt
+    return _history(rng, tier, case, again)
+
+
+MASK_ZERO_VALUES = [Fraction(0), Fraction(0), Fraction(1, 4), Fraction(1, 2), Fraction(1, 2), Fraction(-1), Fraction(511, 1024)]
+MASK_ONE_VALUES = [Fraction(1), Fraction(1), Fraction(3, 4), Fraction(2), Fraction(513, 1024), Fraction(255)]
+
+
+def _mask_data(rng, shape, raw):
+    p0 = rng.choice([0.0, 0.3, 0.5, 0.7, 1.0]) if rng.random() < 0.25 else rng.choice([0.3, 0.5, 0.7])
+    data = [0 if rng.random() < p0 else 1 for _ in range(shape[0] * shape[1] * shape[2])]
+    m = dict(shape=shape, data=data)
+    if raw:  # values around the documented binarisation threshold: zero voxel <=> value <= 0.5
+        m["raw"] = [_i(rng.choice(MASK_ONE_VALUES if d else MASK_ZERO_VALUES)) for d in data]
+    return m
+
+
+def _same_voxel(rng, cj):
+    """another position with the same truncated index as cj"""
+    v, f = _trunc(cj), Fraction(rng.randint(0, 3), 4)
+    return v + f if v > 0 else (v - f if v < 0 else rng.choice([f, -f]))
+
+
+def _mask_rows(rng, n, tomos, shape_of, ids_mode):
     ids = _ids(rng, n)
     rows = []
+    cpos = []
     for k in range(n):
         t = rng.choice(tomos)
         sh = shape_of.get(t, [6, 6, 6])
@@ -624,8 +851,63 @@ def gen_mask(rng, tier):
                       "frac_neg": -Fraction(rng.randint(1, 3), 4), "neg1": Fraction(-1), "neg": -Fraction(rng.randint(5, 40), 4),
                       "shape": Fraction(S), "beyond": S + Fraction(rng.randint(1, 40), 4)}[kind])
         rows.append(_row(rng, ids[k], t, c))
-    return dict(op="mask", scale=SCALE, rows=rows, tomos=[_i(t) for t in listed], masks=masks, single=single, variant=variant,
-                inplace=rng.random() < 0.5)
+        cpos.append(c)
+    if ids_mode == "per-tomogram":
+        _restamp_ids(rng, rows, "per-tomogram")
+    elif ids_mode == "repeat-within-tomogram":
+        # some rows of a tomogram take the id of an earlier row of that tomogram AND its voxel (a re-picked particle: other shifts,
+        # other angles/scores, same voxel; or the row verbatim) - the lists on which the statement still holds (MaskWellFormed)
+        first = {}
+        for k, r in enumerate(rows):
+            t = r[I_TOMO]
+            if t in first and rng.random() < 0.4:
+                j = rng.choice(first[t])
+                if rng.random() < 0.3:
+                    rows[k] = list(rows[j])
+                else:
+                    c = [_same_voxel(rng, cpos[j][a]) for a in range(3)]
+                    rows[k] = _row(rng, rows[j][I_ID] // SCALE, t, c)
+                    cpos[k] = c
+            else:
+                first.setdefault(t, []).append(k)
+    return rows
+
+
+def gen_mask(rng, tier):
+    T = rng.randint(1, 4)
+    tomos = rng.sample(TOMO_POOL, T)
+    single = rng.random() < 0.2
+    listed = [t for t in tomos if rng.random() < 0.8] or [tomos[0]]
+    rng.shuffle(listed)
+    variant = "single-mask" if single else "plain"
+    if rng.random() < 0.15:
+        listed.insert(rng.randrange(len(listed) + 1), rng.choice([t for t in TOMO_POOL if t not in tomos]))
+    raw = rng.random() < 0.3
+    masks = [_mask_data(rng, [rng.randint(2, 9) for _ in range(3)], raw) for _ in range(1 if single else len(listed))]
+    if not single and rng.random() < 0.03:
+        if rng.random() < 0.5 and len(masks) > 1:
+            masks.pop()
+        else:
+            masks.append(masks[0])
+        variant = "list-length-mismatch"
+    shape_of = {}
+    for i, t in enumerate(listed):
+        shape_of.setdefault(t, masks[0]["shape"] if single else masks[min(i, len(masks) - 1)]["shape"])
+    ids_mode = rng.choice(["unique"] * 4 + ["per-tomogram"] * 4 + ["repeat-within-tomogram"] * 2)
+    rows = _mask_rows(rng, _nrows(rng, tier), tomos, shape_of, ids_mode)
+    inplace = rng.random() < 0.5
+    case = dict(op="mask", scale=SCALE, rows=rows, tomos=[_i(t) for t in listed], masks=masks, single=single, variant=variant,
+                inplace=inplace, ids=ids_mode, mask_dtype=("float" if raw else rng.choice(["float", "float", "int8", "int64"])),
+                tomos_as=rng.choice(["list", "list", "ndarray"]))
+    if inplace and rng.random() < 0.6:
+        case["omit"] = ["inplace"]
+
+    def again(rng, case):
+        nxt = dict(rows=_mask_rows(rng, rng.randint(1, 14), tomos, shape_of, ids_mode))
+        if rng.random() < 0.4:  # the caller repaints the same mask arrays (same shapes)
+            nxt["masks"] = [_mask_data(rng, m["shape"], raw) for m in masks]
+        return nxt
+    return _history(rng, tier, case, again)
 
 
 GENS = [("oob", gen_oob, 0.40), ("trim", gen_trim, 0.18), ("points", gen_points, 0.20), ("mask", gen_mask, 0.22)]
@@ -642,69 +924,266 @@ def generate(rng, tier, n):
 
 
 # =============================================================================== implementation
-def _motl(case):
+def _motl_of(rows, scale):
     import numpy as np, pandas as pd
     from cryocat import cryomotl
-    data = np.array([[n / case["scale"] for n in row] for row in case["rows"]], dtype=float).reshape(-1, 20)
+    data = np.array([[n / scale for n in row] for row in rows], dtype=float).reshape(-1, 20)
     return cryomotl.Motl(pd.DataFrame(data, columns=COLS))
 
 
-def _obs_rows(df):
-    vals = df.loc[:, COLS].to_numpy(dtype=float)
-    out = []
-    for row in vals.tolist():
-        r = []
-        for v in row:
-            if math.isnan(v) or math.isinf(v):
-                r.append(["nan", 0])
+def _cell(v):
+    """one returned cell with its python type kept: numbers exactly, anything else as text"""
+    import numpy as np
+    if isinstance(v, (bool, np.bool_)):
+        return ["text", "bool:" + str(v)]
+    if isinstance(v, (int, np.integer)):
+        return [int(v), 1]
+    if isinstance(v, (float, np.floating)):
+        v = float(v)
+        if math.isnan(v) or math.isinf(v):
+            return ["nan", 0]
+        f = Fraction(v)
+        return [f.numerator, f.denominator]
+    return ["text", type(v).__name__ + ":" + str(v)[:40]]
+
+
+def _obs_table(df):
+    """rows of the 20 particle fields as returned (no coercion) + the dtype kind of every column"""
+    cols = [df[c].tolist() if c in df.columns else [None] * len(df) for c in COLS]
+    rows = [[_cell(col[i]) for col in cols] for i in range(len(df))]
+    kinds = [df[c].dtype.kind if c in df.columns else "-" for c in COLS]
+    return rows, kinds
+
+
+def _exc_obs(e):
+    """the framework's attribution rule: the innermost frame inside /cryocat/ ('' = raised by the harness or a third-party library
+    without cryoCAT on the stack)"""
+    import traceback
+    where = ""
+    for fr in reversed(traceback.extract_tb(e.__traceback__)):
+        if "/cryocat/" in fr.filename:
+            where = f"{os.path.basename(fr.filename)}:{fr.lineno}"
+            break
+    return {"error": f"{type(e).__name__}: {str(e)[:300]}", "where": where}
+
+
+class _Args:
+    """the caller-owned arguments of one history: built ONCE, handed to every call, edited in place between calls where the case
+    says so, and compared with a private snapshot after every call"""
+
+    def __init__(self, case):
+        import numpy as np, pandas as pd
+        self.np, self.pd = np, pd
+        self.op, self.sc = case["op"], case["scale"]
+        self.tmp = None
+        op, sc = self.op, self.sc
+        if op == "oob":
+            arr = np.array([[v / sc for v in d] for d in case["dims"]], dtype=float).reshape(-1, 4)
+            form = case.get("dims_as", "ndarray")
+            self.form = form
+            if form == "dataframe":
+                self.dims = pd.DataFrame(arr, columns=["tomo_id", "x", "y", "z"])
+            elif form == "file":
+                self.tmp = tempfile.mkdtemp(prefix="c09_")
+                self.dims = os.path.join(self.tmp, "dims.txt")
+                self._write_dims(arr)
+            elif form == "list":
+                self.dims = arr[0].tolist()
+            elif form == "ndarray1d":
+                self.dims = arr[0].copy()
             else:
-                f = Fraction(v)
-                r.append([f.numerator, f.denominator])
-        out.append(r)
-    return out
+                self.dims = arr
+        elif op == "trim":
+            form = case.get("args_as", "list")
+            s, e = [v / sc for v in case["start"]], [v / sc for v in case["end"]]
+            if form == "ndarray":
+                s, e = np.array(s), np.array(e)
+            elif form == "ndarray-int":
+                s, e = np.array(s).astype(int), np.array(e).astype(int)
+            elif form == "tuple":
+                s, e = tuple(s), tuple(e)
+            self.start, self.end = s, e
+        elif op == "points":
+            pa = np.array([[v / sc for v in q] for q in case["pts"]], dtype=float).reshape(-1, 4)
+            self.pts = pd.DataFrame(pa, columns=["tomo_id", "x", "y", "z"])
+            if case.get("pts_int_dtype") and len(pa) and np.all(pa == np.round(pa)):
+                self.pts = self.pts.astype(int)
+            self.r = case["r"] / sc
+        elif op == "mask":
+            self.masks = [self._mask_array(k, case) for k in case["masks"]]
+            self.tomos = [v / sc for v in case["tomos"]]
+            if case.get("tomos_as") == "ndarray":
+                self.tomos = np.array(self.tomos)
+            self.marg = self.masks[0] if case.get("single") else self.masks
+        else:
+            raise ValueError("unknown op " + str(op))
+
+    def _mask_array(self, k, case):
+        np = self.np
+        vals = [v / self.sc for v in k["raw"]] if "raw" in k else k["data"]
+        dt = {"int8": np.int8, "int64": np.int64}.get(case.get("mask_dtype", "float"), float)
+        return np.array(vals, dtype=float if "raw" in k else dt).reshape(k["shape"])
+
+    def _write_dims(self, arr):
+        with open(self.dims, "w") as f:
+            for row in arr.tolist():
+                f.write(" ".join(str(int(v)) if float(v).is_integer() else repr(v) for v in row) + "\n")
+
+    def edit(self, nxt, case):
+        """the caller's legitimate edits between two calls: same objects, new content"""
+        np, sc = self.np, self.sc
+        if self.op == "oob" and "dims" in nxt:
+            arr = np.array([[v / sc for v in d] for d in nxt["dims"]], dtype=float).reshape(-1, 4)
+            if self.form == "dataframe":
+                self.dims.iloc[:, :] = arr
+            elif self.form == "file":
+                self._write_dims(arr)
+            elif self.form == "list":
+                self.dims[:] = arr[0].tolist()
+            elif self.form == "ndarray1d":
+                self.dims[:] = arr[0]
+            else:
+                self.dims[:, :] = arr
+        elif self.op == "trim" and "start" in nxt:
+            s, e = [v / sc for v in nxt["start"]], [v / sc for v in nxt["end"]]
+            if isinstance(self.start, np.ndarray):
+                self.start[:] = s
+                self.end[:] = e
+            elif isinstance(self.start, list):
+                self.start[:] = s
+                self.end[:] = e
+            else:
+                self.start, self.end = tuple(s), tuple(e)
+        elif self.op == "points" and "pts" in nxt:
+            pa = np.array([[v / sc for v in q] for q in nxt["pts"]], dtype=float).reshape(-1, 4)
+            as_int = self.pts.dtypes.iloc[0].kind == "i" and bool(np.all(pa == np.round(pa)))
+            for i, c in enumerate(["tomo_id", "x", "y", "z"]):  # the same table object, columns overwritten
+                self.pts[c] = pa[:, i].astype(int) if as_int else pa[:, i]
+            self.r = nxt["r"] / sc
+        elif self.op == "mask" and "masks" in nxt:
+            for arr, k in zip(self.masks, nxt["masks"]):
+                arr[...] = self._mask_array(k, case)
+
+    def snapshot(self):
+        np, pd = self.np, self.pd
+        out = {}
+        for name in ("dims", "start", "end", "pts", "tomos"):
+            if hasattr(self, name):
+                v = getattr(self, name)
+                if isinstance(v, str):
+                    out[name] = ("file", open(v).read())
+                elif isinstance(v, pd.DataFrame):
+                    out[name] = ("frame", v.copy(deep=True), list(v.columns), [str(t) for t in v.dtypes])
+                elif isinstance(v, np.ndarray):
+                    out[name] = ("array", v.copy(), str(v.dtype))
+                else:
+                    out[name] = ("plain", copy.deepcopy(v))
+        if hasattr(self, "masks"):
+            out["masks"] = ("arrays", [m.copy() for m in self.masks], [str(m.dtype) for m in self.masks])
+        return out
+
+    def changed(self, snap):
+        """names of the caller-owned arguments whose content / dtype / labels differ from the snapshot"""
+        np = self.np
+        bad = []
+        for name, rec in snap.items():
+            v = self.masks if name == "masks" else getattr(self, name)
+            kind = rec[0]
+            if kind == "file":
+                same = open(v).read() == rec[1]
+            elif kind == "frame":
+                same = list(v.columns) == rec[2] and [str(t) for t in v.dtypes] == rec[3] and v.shape == rec[1].shape \
+                    and bool(np.array_equal(v.to_numpy(), rec[1].to_numpy())) and list(v.index) == list(rec[1].index)
+            elif kind == "array":
+                same = str(v.dtype) == rec[2] and v.shape == rec[1].shape and bool(np.array_equal(v, rec[1]))
+            elif kind == "arrays":
+                same = len(v) == len(rec[1]) and all(str(a.dtype) == d and a.shape == b.shape and bool(np.array_equal(a, b))
+                                                     for a, b, d in zip(v, rec[1], rec[2]))
+            else:
+                same = type(v) is type(rec[1]) and v == rec[1]
+            if not same:
+                bad.append(name)
+        return bad
+
+    def call(self, m, case):
+        omit = set(case.get("omit") or [])
+        op = self.op
+        if op == "oob":
+            kw = {}
+            if "boundary_type" not in omit:
+                kw["boundary_type"] = case["bt"]
+            if case["box"] is not None:
+                kw["box_size"] = case["box"]
+            m.remove_out_of_bounds_particles(self.dims, **kw)
+            return m
+        if op == "trim":
+            m.adapt_to_trimming(self.start, self.end)
+            return m
+        inplace = case.get("inplace", True)
+        kw = {} if ("inplace" in omit and inplace) else {"inplace": inplace}
+        if op == "points":
+            r = m.clean_by_distance_to_points(self.pts, self.r, **kw)
+        else:
+            r = m.clean_by_tomo_mask(self.tomos, self.marg, **kw)
+        return m if inplace else r
+
+    def close(self):
+        if self.tmp:
+            import shutil
+            shutil.rmtree(self.tmp, ignore_errors=True)
+
+
+def _sub_case(case, k):
+    """the k-th call of a history as a single-call case (k = 0: the case itself without its history)"""
+    c = {key: v for key, v in case.items() if key != "more"}
+    for nxt in (case.get("more") or [])[:k]:
+        c.update({key: v for key, v in nxt.items() if key != "rows"})  # edits accumulate: the objects keep their last content
+    if k > 0:
+        c["rows"] = case["more"][k - 1]["rows"]
+    return c
+
+
+def _n_calls(case):
+    return 1 + len(case.get("more") or [])
 
 
 def run_impl(case):
-    import numpy as np, pandas as pd
-    sc = case["scale"]
-    m = _motl(case)
-    op = case["op"]
+    args = _Args(case)  # a failure here is the harness's own: it propagates without a cryocat frame
     sink = io.StringIO()
-    with contextlib.redirect_stdout(sink):
-        if op == "oob":
-            arr = np.array([[v / sc for v in d] for d in case["dims"]], dtype=float)
-            dims = arr if case.get("dims_as") == "ndarray" else pd.DataFrame(arr, columns=["tomo_id", "x", "y", "z"])
-            kw = {}
-            if case["box"] is not None:
-                kw["box_size"] = case["box"]
-            m.remove_out_of_bounds_particles(dims, boundary_type=case["bt"], **kw)
-            res = m
-        elif op == "trim":
-            s = [v / sc for v in case["start"]]
-            e = [v / sc for v in case["end"]]
-            if case.get("args_as") == "ndarray":
-                s, e = np.array(s), np.array(e)
-            m.adapt_to_trimming(s, e)
-            res = m
-        elif op == "points":
-            p = np.array([[v / sc for v in q] for q in case["pts"]], dtype=float).reshape(-1, 4)
-            pts = pd.DataFrame(p, columns=["tomo_id", "x", "y", "z"])
-            if case.get("pts_int_dtype") and len(p) and np.all(p == np.round(p)):
-                pts = pts.astype(int)
-            r = m.clean_by_distance_to_points(pts, case["r"] / sc, inplace=case.get("inplace", True))
-            res = m if case.get("inplace", True) else r
-        elif op == "mask":
-            masks = [np.array(k["data"], dtype=float).reshape(k["shape"]) for k in case["masks"]]
-            tl = [v / sc for v in case["tomos"]]
-            arg = masks[0] if case.get("single") else masks
-            r = m.clean_by_tomo_mask(tl, arg, inplace=case.get("inplace", True))
-            res = m if case.get("inplace", True) else r
-        else:
-            raise ValueError("unknown op " + str(op))
-    return dict(rows=_obs_rows(res.df), n_cols=int(res.df.shape[1]))
+    out = []
+    try:
+        for k in range(_n_calls(case)):
+            sub = _sub_case(case, k)
+            if k > 0:
+                args.edit(case["more"][k - 1], sub)
+            m = _motl_of(sub["rows"], sub["scale"])
+            before = m.df.copy(deep=True)
+            snap = args.snapshot()
+            try:
+                with contextlib.redirect_stdout(sink):
+                    res = args.call(m, sub)
+                rows, kinds = _obs_table(res.df)
+                o = dict(rows=rows, kinds=kinds, n_cols=int(res.df.shape[1]))
+                if sub["op"] in ("points", "mask") and not sub.get("inplace", True):
+                    o["original_changed"] = not (list(m.df.columns) == list(before.columns) and m.df.shape == before.shape
+                                                 and bool((m.df.to_numpy() == before.to_numpy()).all()))
+            except Exception as e:
+                o = _exc_obs(e)
+            o["args_changed"] = args.changed(snap)
+            out.append(o)
+    finally:
+        args.close()
+    obs = dict(out[0])
+    if len(out) > 1:
+        obs["more"] = out[1:]
+    return obs
 
 
-def requests(case, obs):
+def _sub_obs(obs, k):
+    return obs if k == 0 else (obs.get("more") or [])[k - 1] if k - 1 < len(obs.get("more") or []) else {"error": "HarnessError: no observation of this call", "where": ""}
+
+
+def _request_of(case):
     q = {k: case[k] for k in ("op", "scale", "rows")}
     op = case["op"]
     if op == "oob":
@@ -717,7 +1196,11 @@ def requests(case, obs):
         q.update(pts=case["pts"], r=case["r"])
     elif op == "mask":
         q.update(tomos=case["tomos"], masks=case["masks"], single=bool(case.get("single")))
-    return [q]
+    return q
+
+
+def requests(case, obs):
+    return [_request_of(_sub_case(case, k)) for k in range(_n_calls(case))]
 
 
 # =============================================================================== independent oracle
@@ -813,43 +1296,60 @@ def _impl_kind(obs):
     return "raises:" + e[:120]
 
 
+def _impl_cell(c):
+    if c[0] == "nan":
+        return None
+    if c[0] == "text":
+        return ("text", c[1])
+    return Fraction(c[0], c[1])
+
+
 def _impl_result(obs):
     if "error" in obs:
         return dict(error=_impl_kind(obs))
-    rows = []
-    for r in obs["rows"]:
-        rows.append(tuple(None if c[0] == "nan" else Fraction(c[0], c[1]) for c in r))
-    return dict(rows=rows)
+    return dict(rows=[tuple(_impl_cell(c) for c in r) for r in obs["rows"]])
 
 
-def _k1_rows(case, obs):
-    """particles the implementation kept although min(pos - boundary) < 0 while every upper bound holds
-    (class of the open finding C09-K1); evaluated from the case and the observation only"""
-    if case.get("op") != "oob" or "rows" not in obs:
-        return []
-    by_id = {}
-    for r in case["rows"]:
-        by_id.setdefault(r[I_ID], r)
+def _to_wire(row):
+    """a row of Fractions -> wire integers, None when a cell is not a grid number"""
     out = []
-    for r in obs["rows"]:
-        if r[I_ID][0] == "nan":
-            continue
-        sid = Fraction(r[I_ID][0], r[I_ID][1]) * SCALE
-        src = by_id.get(sid)
-        if src is None:
-            continue
-        has, lo, up = _oob_parts(case, src)
-        if has and (not lo) and up:
-            out.append(src)
+    for v in row:
+        if not isinstance(v, Fraction) or (v * SCALE).denominator != 1:
+            return None
+        out.append(int(v * SCALE))
     return out
 
 
-def judge(case, obs, resps):
+def _k1_rows(case, obs):
+    """rows the implementation kept although min(pos - boundary) < 0 while every upper bound holds (class of the open finding
+    C09-K1). A kept row counts only when it is, field by field, a row of the input (keyed on the FULL row, so that repeated
+    subtomo ids cannot make another row's geometry stand in); evaluated from the single-call case and the observation only."""
+    if case.get("op") != "oob" or "rows" not in obs:
+        return []
+    inputs = {tuple(r) for r in case["rows"]}
+    out = []
+    for r in _impl_result(obs)["rows"]:
+        w = _to_wire(r)
+        if w is None or tuple(w) not in inputs:
+            continue
+        has, lo, up = _oob_parts(case, w)
+        if has and (not lo) and up:
+            out.append(w)
+    return out
+
+
+def judge_one(case, obs, resp):
+    """findings of ONE call. kind 'spec' only where a clause of the statement fails on the real output: decided against the
+    answer `spec` of the Lean driver - the executable statement (oob_spec / trim_spec / cleanPoints_perm / cleanMaskStmt_spec) -
+    or by looking at input and output alone (survivor unaltered, caller's arguments untouched). Everything that compares with a
+    MODEL of the code ('code', 'model') or with the Python oracle is 'corr'."""
     out = []
     op = case["op"]
-    resp = resps[0]
     if "error" in resp and "spec" not in resp:
         return [dict(kind="corr", clause="driver-refused-request", detail=str(resp))]
+    if "error" in obs and not obs.get("where"):
+        # no frame of /cryocat/ on the traceback: the harness or a library failed, cryoCAT was not even running (G4)
+        return [dict(kind="corr", clause="harness-or-library-raised", detail=f"{op}: {obs['error']}")]
     impl = _impl_result(obs)
 
     def norm(r):
@@ -860,18 +1360,31 @@ def judge(case, obs, resps):
     exp_n = dict(error=exp["error"]) if "error" in exp else dict(rows=_wire_of_case(exp["rows"]))
     if exp_n != spec:
         out.append(dict(kind="corr", clause="lean-spec-vs-python-oracle", detail=f"{op}: the Lean verdict and the direct evaluation of the statement differ"))
+    if "model" in resp and norm(resp["model"]) != spec:
+        # generated lists are MaskWellFormed: the documented code model and the statement agree there (cleanMask_eq_stmt)
+        out.append(dict(kind="corr", clause="lean-model-vs-statement", detail=f"{op}: the documented code model and the statement differ on a list that should be well-formed"))
     spec_clauses = []
+    if obs.get("args_changed"):
+        spec_clauses.append(("caller-argument-modified", f"{op}: the call changed the caller's own argument(s) {obs['args_changed']} (content, dtype or labels)"))
+    if obs.get("original_changed"):
+        spec_clauses.append((f"{op}-original-altered", f"{op}: inplace=False but the list the method was called on changed"))
     if "error" in spec or "error" in impl:
         if spec != impl:
             if "error" in impl and "rows" in spec:
                 spec_clauses.append(("raises-on-valid-input", f"{op}: {impl['error']} where the property demands {len(spec['rows'])} survivors"))
             else:
                 out.append(dict(kind="corr", clause="rejection-differs", detail=f"{op}: implementation {('returned %d rows' % len(impl['rows'])) if 'rows' in impl else impl['error']}, model {spec.get('error')}"))
-    elif impl["rows"] != spec["rows"]:
+    else:
+        kinds = obs.get("kinds") or []
+        texty = [COLS[k] for k, kd in enumerate(kinds) if kd not in "iufb-"] + sorted({COLS[k] for r in impl["rows"] for k, c in enumerate(r) if isinstance(c, tuple)})
+        if texty:
+            spec_clauses.append((f"{op}-survivor-altered", f"numeric field(s) {sorted(set(texty))} come back as text/object (column dtype kinds {''.join(kinds)})"))
+        elif any(kd != "f" for kd in kinds):
+            out.append(dict(kind="corr", clause="dtype-changed", detail=f"{op}: float64 columns went in, column dtype kinds {''.join(kinds)} came out"))
+        if obs.get("n_cols") != 20:
+            spec_clauses.append((f"{op}-survivor-altered", f"result has {obs.get('n_cols')} columns"))
+    if "rows" in spec and "rows" in impl and impl["rows"] != spec["rows"]:
         inputs = _wire_of_case(case["rows"])
-        by_id = {}
-        for r in inputs:
-            by_id.setdefault(r[I_ID], r)
         off = [Fraction(0)] * 3
         if op == "trim":
             off = [_fr(case["start"][a]) - 1 for a in range(3)]
@@ -882,33 +1395,34 @@ def judge(case, obs, resps):
                 r2[I_X + a] = r[I_X + a] - off[a]
             return tuple(r2)
 
-        altered, impl_ids = [], []
-        for r in impl["rows"]:
-            src = by_id.get(r[I_ID])
-            if src is None or documented(src) != r:
-                diff = [] if src is None else [COLS[k] for k in range(20) if documented(src)[k] != r[k]]
-                altered.append((r[I_ID], diff))
-            else:
-                impl_ids.append(r[I_ID])
-        spec_ids = [r[I_ID] for r in spec["rows"]]
-        kept_wrong = [i for i in impl_ids if i not in set(spec_ids)]
-        removed_wrong = [i for i in spec_ids if i not in set(impl_ids) and i not in {a[0] for a in altered}]
-        if obs.get("n_cols") != 20:
-            spec_clauses.append((f"{op}-survivor-altered", f"result has {obs.get('n_cols')} columns"))
-        if altered:
-            spec_clauses.append((f"{op}-survivor-altered", f"{len(altered)} survivor(s) differ from the input beyond the documented offset, e.g. subtomo_id {altered[0][0]} fields {altered[0][1]}"))
+        # everything is keyed on the FULL row (a subtomo id may occur any number of times)
+        c_in = Counter(documented(r) for r in inputs)
+        c_impl, c_spec = Counter(impl["rows"]), Counter(spec["rows"])
+        altered = [r for r in c_impl if r not in c_in]
+        multiplied = [r for r in c_impl if r in c_in and c_impl[r] > c_in[r]]
+        kept_wrong = [r for r in c_impl if r in c_in and c_impl[r] > c_spec[r] and r not in multiplied]
+        removed_wrong = [r for r in c_spec if c_spec[r] > c_impl[r]]
+        if altered:  # an altered survivor is reported once, not again as "its original is missing"
+            gone = {(a[I_TOMO], a[I_ID]) for a in altered}
+            removed_wrong = [r for r in removed_wrong if (r[I_TOMO], r[I_ID]) not in gone]
+            a0 = altered[0]
+            near = [r for r in c_in if (r[I_TOMO], r[I_ID]) == (a0[I_TOMO], a0[I_ID])]
+            diff = [COLS[k] for k in range(20) if near and near[0][k] != a0[k]]
+            spec_clauses.append((f"{op}-survivor-altered", f"{len(altered)} survivor(s) are no input row (beyond the documented offset), e.g. subtomo_id {a0[I_ID]} of tomogram {a0[I_TOMO]}, fields {diff}"))
+        if multiplied:
+            spec_clauses.append((f"{op}-survivor-altered", f"{len(multiplied)} row(s) occur more often in the result than in the input, e.g. subtomo_id {multiplied[0][I_ID]}"))
         if op == "oob":
-            k1_ids = {_fr(r[I_ID]) for r in _k1_rows(case, obs)}
-            k1 = [i for i in kept_wrong if i in k1_ids]
-            kept_wrong = [i for i in kept_wrong if i not in k1_ids]
+            k1_set = {tuple(_fr(v) for v in w) for w in _k1_rows(case, obs)}
+            k1 = [r for r in kept_wrong if r in k1_set]
+            kept_wrong = [r for r in kept_wrong if r not in k1_set]
             if k1:
-                spec_clauses.append(("oob-lower-face-kept", f"{len(k1)} particle(s) kept although min(pos - boundary) < 0 (upper bounds hold), e.g. subtomo_id {k1[0]}"))
+                spec_clauses.append(("oob-lower-face-kept", f"{len(k1)} particle(s) kept although min(pos - boundary) < 0 (upper bounds hold), e.g. subtomo_id {k1[0][I_ID]} of tomogram {k1[0][I_TOMO]}"))
         if kept_wrong:
-            spec_clauses.append((f"{op}-keeps-outside", f"{len(kept_wrong)} particle(s) kept that the property removes, e.g. subtomo_id {kept_wrong[0]}"))
+            spec_clauses.append((f"{op}-keeps-outside", f"{len(kept_wrong)} particle(s) kept that the property removes, e.g. subtomo_id {kept_wrong[0][I_ID]} of tomogram {kept_wrong[0][I_TOMO]}"))
         if removed_wrong:
-            spec_clauses.append((f"{op}-removes-inside", f"{len(removed_wrong)} particle(s) removed that the property keeps, e.g. subtomo_id {removed_wrong[0]}"))
-        if not spec_clauses:
-            out.append(dict(kind="corr", clause="order-or-multiplicity", detail=f"{op}: same particles, different order/multiplicity than the model"))
+            spec_clauses.append((f"{op}-removes-inside", f"{len(removed_wrong)} particle(s) removed that the property keeps, e.g. subtomo_id {removed_wrong[0][I_ID]} of tomogram {removed_wrong[0][I_TOMO]}"))
+        if not (altered or multiplied or kept_wrong or removed_wrong or (op == "oob" and k1)):
+            out.append(dict(kind="corr", clause="order-or-multiplicity", detail=f"{op}: same particles, different order than the model"))
     for cl, det in spec_clauses:
         out.append(dict(kind="spec", clause=cl, detail=det))
     # correspondence with the model of the code as it is today
@@ -920,8 +1434,30 @@ def judge(case, obs, resps):
     return out
 
 
+def _call_of_clause(clause):
+    m = re.search(r"@call(\d+)$", clause or "")
+    return (int(m.group(1)) - 1) if m else 0
+
+
+def judge(case, obs, resps):
+    """every call of a history is judged as strictly as a single call; findings of later calls carry `@call<k>`"""
+    out = []
+    n = _n_calls(case)
+    if len(resps) != n:
+        return [dict(kind="corr", clause="driver-refused-request", detail=f"{len(resps)} answers for {n} calls")]
+    for k in range(n):
+        for f in judge_one(_sub_case(case, k), _sub_obs(obs, k), resps[k]):
+            if k > 0:
+                f = dict(f, clause=f"{f['clause']}@call{k + 1}", detail=f"call {k + 1} of a history re-using the caller's arguments: {f['detail']}")
+            out.append(f)
+    return out
+
+
 def classify(case, obs, finding):
-    if finding.get("kind") == "spec" and finding.get("clause") == "oob-lower-face-kept" and _k1_rows(case, obs):
+    cl = finding.get("clause") or ""
+    k = _call_of_clause(cl)
+    if finding.get("kind") == "spec" and cl.split("@")[0] == "oob-lower-face-kept" and k < _n_calls(case) \
+            and _k1_rows(_sub_case(case, k), _sub_obs(obs, k)):
         return "C09-K1"
     return None
 
@@ -1012,18 +1548,55 @@ def stats(case, obs, resps):
         if case["bt"] == "whole" and case["box"]:
             st["box"] = "1-8" if case["box"] <= 8 else ("9-32" if case["box"] <= 32 else "33-64")
         st["K1-class particles"] = "yes" if _k1_rows(case, obs) else "no"
+        st["box mod 4"] = str(case["box"] % 4) if (case["bt"] == "whole" and case["box"]) else "-"
+        st["dims handed over as"] = case.get("dims_as", "ndarray")
+        d = [x[0] for x in case["dims"]]
+        st["dims table"] = "sorted" if d == sorted(d) else "unsorted"
+    if op == "trim":
+        st["trim box handed over as"] = case.get("args_as", "list")
     if op == "mask":
         st["mask form"] = "single" if case.get("single") else "list"
+        st["mask values"] = "around-threshold" if any("raw" in m for m in case["masks"]) else "0/1 " + case.get("mask_dtype", "float")
     if op in ("mask", "points"):
         st["inplace"] = str(bool(case.get("inplace", True)))
+    keys = [(r[I_TOMO], r[I_ID]) for r in case["rows"]]
+    ids = [r[I_ID] for r in case["rows"]]
+    st["subtomo ids"] = f"{op}:" + ("repeat inside a tomogram" if len(set(keys)) < len(keys) else
+                                    ("repeat across tomograms" if len(set(ids)) < len(ids) else "unique"))
+    st["calls in the history"] = f"{op}:{_n_calls(case)}"
+    if case.get("more"):
+        st["edited between calls"] = [f"{op}:{k}" for nxt in case["more"] for k in nxt if k != "rows"] or [f"{op}:nothing (same arguments)"]
+    st["default keywords"] = f"{op}:" + ("omitted " + ",".join(case["omit"]) if case.get("omit") else
+                                         ("n/a" if op == "trim" else "passed explicitly"))
     if "error" in obs:
         st["impl error"] = _impl_kind(obs)[:60]
+    if "kinds" in obs:
+        st["returned dtype kinds"] = "".join(sorted(set(obs["kinds"])))
     return st
 
 
 def shrink(case):
     rows = case["rows"]
     n = len(rows)
+    more = case.get("more") or []
+    if more:
+        yield {k: v for k, v in case.items() if k != "more"}  # the first call alone
+        for k in range(len(more)):
+            if len(more) > 1:
+                yield dict(case, more=more[:k] + more[k + 1:])
+            mr = more[k]["rows"]
+            if len(mr) > 1:
+                yield dict(case, more=more[:k] + [dict(more[k], rows=mr[: len(mr) // 2])] + more[k + 1:])
+                yield dict(case, more=more[:k] + [dict(more[k], rows=mr[len(mr) // 2:])] + more[k + 1:])
+                for j in range(min(len(mr), 8)):
+                    yield dict(case, more=more[:k] + [dict(more[k], rows=mr[:j] + mr[j + 1:])] + more[k + 1:])
+            edits = [key for key in more[k] if key != "rows"]
+            if edits:
+                yield dict(case, more=more[:k] + [dict(rows=mr)] + more[k + 1:])
+        if n > 1:
+            yield dict(case, rows=rows[:1])
+    if case.get("omit"):
+        yield {k: v for k, v in case.items() if k != "omit"}
     if n > 1:
         yield dict(case, rows=rows[: n // 2])
         yield dict(case, rows=rows[n // 2:])
@@ -1064,7 +1637,9 @@ def shrink(case):
 
 
 def sample_view(case):
-    v = {k: case[k] for k in case if k not in ("rows", "masks")}
+    v = {k: case[k] for k in case if k not in ("rows", "masks", "more")}
+    if case.get("more"):
+        v["later_calls(same caller-owned arguments)"] = [dict(n_rows=len(nx["rows"]), edited=[k for k in nx if k != "rows"]) for nx in case["more"]]
     v["n_rows"] = len(case["rows"])
     v["first_rows(x,y,z,shift,tomo,id)"] = [[r[I_X] / SCALE, r[I_X + 1] / SCALE, r[I_X + 2] / SCALE, r[I_SX] / SCALE, r[I_SX + 1] / SCALE,
                                              r[I_SX + 2] / SCALE, r[I_TOMO] / SCALE, r[I_ID] / SCALE] for r in case["rows"][:4]]
@@ -1112,10 +1687,13 @@ def probes(rng):
 
 
 LEVEL_TEXT = ("Lean 4 theorems about an executable model of the four spatial filters, for all particle lists, all dimension tables, all trim boxes, "
-              "all point sets/radii and all masks (oob_spec, oob_rejects_iff, oob_partial, oob_counterexample, trim_spec, trim_inside_iff, "
-              "cleanPoints_spec, cleanPoints_perm, cleanMask_spec, survivors-unaltered corollaries); the model is tied to the source by regenerated "
-              "comparison operators/constants (Gen/C09.lean) and by an exact differential run of the real functions against the model at Rat")
+              "all point sets/radii and all masks (oob_spec, oob_rejects_iff, oob_partial, oob_counterexample, trim_spec, trim_survivor, trim_complete, "
+              "cleanPoints_perm, cleanPoints_mem_iff, cleanMaskStmt_spec, cleanMask_spec_iff, cleanMask_spec, cleanMask_eq_stmt, voxel_truncation_convention); "
+              "the model is tied to the source by regenerated comparison operators/constants, signature defaults and rename-insensitive body skeletons "
+              "(Gen/C09.lean, *_documented theorems) and by an exact differential run of the real functions against the executable statement at Rat")
 LEVEL_NOTE = ("trusted: Lean kernel; translator anchors; dyadic-grid exactness of numpy floats; scipy KDTree ball query = brute force (probed); "
-              "numpy astype(int) = truncation (probed); pandas selection semantics. Open finding C09-K1 (lower faces never tested) is modelled by oobAsIs.")
-TECHNIQUE = "Lean 4 proof (filter/flatMap/permutation lemmas, ordered-field algebra) + regenerated operators + exact differential correspondence at Rat"
+              "numpy astype(int) = truncation (probed); pandas selection semantics. Open finding C09-K1 (lower faces never tested) is modelled by oobAsIs. "
+              "Mask filter: the code drops rows by (tomo_id, subtomo_id), so the statement holds exactly on lists where rows of one tomogram sharing an id "
+              "share their voxel status (cleanMask_spec_iff).")
+TECHNIQUE = "Lean 4 proof (filter/fold/flatMap/permutation lemmas, ordered-field algebra) + regenerated operators, defaults and body skeletons + exact differential correspondence at Rat incl. multi-call histories"
 DESIGN_REF = "DESIGN.md section 4, C09"
